@@ -151,16 +151,21 @@ def ofHexDigits (ds : List Nat) (text : String) : Option Color :=
 
 /-! ### mix, color/mod.rs:200.  `asFound = true` is the pinned tree (D21: channels not rounded). -/
 
-def mix (asFound : Bool) (c1 c2 : Color) (weight : Rat) : Color :=
+/-- The weighted channels (before `fuzzy_round`) and the alpha of `mix`, color/mod.rs:201–218. -/
+def mixPre (c1 c2 : Color) (weight : Rat) : Rat × Rat × Rat × Rat :=
   let weight := clamp weight 0 100
   let nw := weight * 2 - 1
   let ad := c1.alpha - c2.alpha
   let cw1 := if fuzzyEq (nw * ad) (-1) then nw else (nw + ad) / (1 + nw * ad)
   let w1 := (cw1 + 1) / 2
   let w2 := 1 - w1
+  (c1.red * w1 + c2.red * w2, c1.green * w1 + c2.green * w2, c1.blue * w1 + c2.blue * w2,
+   c1.alpha * weight + c2.alpha * (1 - weight))
+
+def mix (asFound : Bool) (c1 c2 : Color) (weight : Rat) : Color :=
+  let (r, g, b, a) := mixPre c1 c2 weight
   let rd (x : Rat) : Rat := if asFound then x else fuzzyRound x
-  fromRgba (rd (c1.red * w1 + c2.red * w2)) (rd (c1.green * w1 + c2.green * w2))
-    (rd (c1.blue * w1 + c2.blue * w2)) (c1.alpha * weight + c2.alpha * (1 - weight))
+  fromRgba (rd r) (rd g) (rd b) a
 
 /-! ### HSL, color/mod.rs:225 -/
 
@@ -285,11 +290,11 @@ def desaturate (c : Color) (amount : Rat) : Color :=
   fromHsla h (clamp (s - amount) 0 1) l a
 
 /-- `invert`, color/mod.rs:417 (`weight` already divided by 100). -/
+def inverseOf (c : Color) : Color := newRgba (255 - c.red) (255 - c.green) (255 - c.blue) c.alpha .infer
+
 def invert (asFound : Bool) (c : Color) (weight : Rat) : Color :=
   if fuzzyEq weight 0 then c
-  else
-    let inverse := newRgba (255 - c.red) (255 - c.green) (255 - c.blue) c.alpha .infer
-    mix asFound inverse c weight
+  else mix asFound (inverseOf c) c weight
 
 /-- `complement`, color/mod.rs:431. -/
 def complement (c : Color) : Color :=
@@ -357,32 +362,48 @@ def updateValue (current : Rat) (param : Option Rat) (max : Rat) (u : Upd) : Rat
     | .adjust => clamp (p + current) 0 max
     | .scale => current + (if p > 0 then max - current else current) * p
 
-def updateRgb (current : Rat) (param : Option Rat) (u : Upd) : Rat :=
-  fuzzyRound (updateValue current param 255 u)
+/-- What `update_components` decides to build (other.rs:197–239): arguments of the constructor it calls. -/
+inductive Plan where
+  | rgb (r g b a : Rat)        -- channels before `fuzzy_round`, then `from_rgba`
+  | hwb (h w b a : Rat)        -- `from_hwb`
+  | hsl (h s l a : Rat)        -- `from_hsla`
+  | alpha (a : Rat)            -- `with_alpha`
+  | same
+  deriving Repr, Inhabited
 
 /-- The tail of `update_components` (other.rs:150–239), after the arguments were checked and scaled. -/
-def updateComponents (u : Upd) (c : Color) (p : UpdArgs) : Except Err Color :=
+def updatePlan (u : Upd) (c : Color) (p : UpdArgs) : Except Err Plan :=
   let hasRgb := p.red.isSome || p.green.isSome || p.blue.isSome
   let hasSl := p.saturation.isSome || p.lightness.isSome
   let hasWb := p.whiteness.isSome || p.blackness.isSome
   if hasRgb && (hasSl || hasWb || p.hue.isSome) then .error .mixedSpaces
   else if hasSl && hasWb then .error .mixedSpaces
   else if hasRgb then
-    .ok (fromRgba (updateRgb c.red p.red u) (updateRgb c.green p.green u) (updateRgb c.blue p.blue u)
+    .ok (.rgb (updateValue c.red p.red 255 u) (updateValue c.green p.green 255 u) (updateValue c.blue p.blue 255 u)
       (updateValue c.alpha p.alpha 1 u))
   else if hasWb then
-    .ok (fromHwb
+    .ok (.hwb
       (if u = .change then p.hue.getD c.hue else c.hue + p.hue.getD 0)
       (updateValue c.whiteness p.whiteness 1 u * 100)
       (updateValue c.blackness p.blackness 1 u * 100)
       (updateValue c.alpha p.alpha 1 u))
   else if p.hue.isSome || hasSl then
     let (h, s, l, a) := c.asHsla
-    .ok (fromHsla
+    .ok (.hsl
       (if u = .change then p.hue.getD h else h + p.hue.getD 0)
       (updateValue s p.saturation 1 u) (updateValue l p.lightness 1 u) (updateValue a p.alpha 1 u))
-  else if p.alpha.isSome then .ok (withAlpha c (updateValue c.alpha p.alpha 1 u))
-  else .ok c
+  else if p.alpha.isSome then .ok (.alpha (updateValue c.alpha p.alpha 1 u))
+  else .ok .same
+
+def execPlan (c : Color) : Plan → Color
+  | .rgb r g b a => fromRgba (fuzzyRound r) (fuzzyRound g) (fuzzyRound b) a
+  | .hwb h w b a => fromHwb h w b a
+  | .hsl h s l a => fromHsla h s l a
+  | .alpha a => withAlpha c a
+  | .same => c
+
+def updateComponents (u : Upd) (c : Color) (p : UpdArgs) : Except Err Color :=
+  (updatePlan u c p).map (execPlan c)
 
 /-! ## Serializer, serializer.rs:396–510 -/
 
@@ -508,6 +529,7 @@ def sameColor (c d : Color) : Bool := c.eq d && visitColor true c == visitColor 
   color eval <sexpr tokens…>   evaluate an expression; answers
        `ok color <r> <g> <b> <a> | <hex compressed> | <hex expanded>`  (channels as `n/d`, texts hex-encoded)
        `ok num <n/d> <unit>` | `ok bool 0|1` | `ok str <hex>` | `err <class>` | `unsupported`
+       (a trailing ` risky` marks f64-sensitive roundings, see below)
   S-expression tokens: `(` f arg… `)`; atoms `n:<num>/<den>:<unit>` (unit `-` none, `pct`, `deg`),
   `c:<spelling>` named colour, `h:<digits>` hex colour, `k:<name>` keyword marker (next arg is its value).
   color inrange <r> <g> <b> <a>                  P̂ range on an observed colour (rationals `n/d`)
@@ -650,6 +672,65 @@ def buildArgs (u : Upd) : UpdArgs → List (String × Val) → Except Err UpdArg
     | .error e => .error e
   | _, _ => .error .unsupported
 
+/-! ### f64 sensitivity (driver only)
+
+  grass rounds channels with `fuzzy_round` after computing them in f64; the model rounds the exact
+  value.  The two can only differ when the exact value lies within f64 error (≈1e-11 through the
+  `+360, ×60` of `as_hsla`) of the rounding threshold.  The driver marks an answer `risky` when some
+  rounding in the evaluation had its exact argument within 1e-8 of X.5; the check then compares that
+  case channel-by-channel with a tolerance of one unit instead of byte for byte. -/
+
+def nearHalf (x : Rat) : Bool := decide (absQ (fmod1 (absQ x) - 1/2) ≤ 1 / 100000000)
+
+def risk3 (t : Rat × Rat × Rat) : Bool := nearHalf t.1 || nearHalf t.2.1 || nearHalf t.2.2
+
+/-- a colour built by `from_hsla` keeps the arguments it was built from -/
+def storedHslRisk (c : Color) : Bool :=
+  match c.hsl with
+  | some h => risk3 (hslToRgbExact h.hue h.sat h.lum)
+  | none => false
+
+def mixRisk (c1 c2 : Color) (w : Rat) : Bool :=
+  let (r, g, b, _) := mixPre c1 c2 w
+  risk3 (r, g, b)
+
+def planRisk : Plan → Bool
+  | .rgb r g b _ => risk3 (r, g, b)
+  | .hwb h w b _ => risk3 (hwbToRgbExact h w b)
+  | _ => false
+
+def numRisk (x : Rat) (u : String) (max : Rat) : Bool :=
+  match pctOrUnitless x u max with
+  | .ok v => nearHalf v
+  | .error _ => false
+
+def updRisk (u : Upd) (c : Color) (kw : List (String × Val)) : Bool :=
+  match buildArgs u {} kw with
+  | .ok p =>
+    match updatePlan u c p with
+    | .ok plan => planRisk plan
+    | .error _ => false
+  | .error _ => false
+
+/-- extra rounding risk of one function application (beyond what the result's stored HSL shows) -/
+def applyRisk (f : String) (args : List Val) (kw : List (String × Val)) : Bool :=
+  match f, args with
+  | "rgb", .num r ru :: .num g gu :: .num b bu :: _ => numRisk r ru 255 || numRisk g gu 255 || numRisk b bu 255
+  | "hwb", .num h _ :: .num w _ :: .num b _ :: _ => risk3 (hwbToRgbExact h w b)
+  | "mix", [.color c1, .color c2] => mixRisk c1 c2 (1/2)
+  | "mix", [.color c1, .color c2, .num w _] => mixRisk c1 c2 (w / 100)
+  | "invert", [.color c] => mixRisk (inverseOf c) c 1
+  | "invert", [.color c, .num w _] => mixRisk (inverseOf c) c (w / 100)
+  | "change", [.color c] => updRisk .change c kw
+  | "adjust", [.color c] => updRisk .adjust c kw
+  | "scale", [.color c] => updRisk .scale c kw
+  | "ie-hex-str", [.color c] => nearHalf (c.alpha * 255)
+  | _, _ => false
+
+def valRisk : Val → Bool
+  | .color c => storedHslRisk c
+  | _ => false
+
 def applyFn (f : String) (args : List Val) (kw : List (String × Val)) : Except Err Val :=
   match f, args, kw with
   | "rgb", [.num r ru, .num g gu, .num b bu], [] => (fnRgb (r, ru) (g, gu) (b, bu) none).map .color
@@ -712,34 +793,35 @@ def parseAtom (t : String) : Except Err Val :=
   | _ => .error .unsupported
 
 mutual
-/-- parse-and-evaluate one expression; fuel bounds the nesting. -/
-def evalExpr : Nat → List String → Except Err (Val × List String)
+/-- parse-and-evaluate one expression; fuel bounds the nesting.  The `Bool` is the f64-sensitivity mark. -/
+def evalExpr : Nat → List String → Except Err (Val × Bool × List String)
   | 0, _ => .error .unsupported
   | _, [] => .error .unsupported
   | fuel + 1, "(" :: f :: rest =>
-    match evalArgs fuel rest [] [] with
-    | .ok (args, kw, rest) =>
+    match evalArgs fuel rest [] [] false with
+    | .ok (args, kw, risky, rest) =>
       match applyFn f args kw with
-      | .ok v => .ok (v, rest)
+      | .ok v => .ok (v, risky || applyRisk f args kw || valRisk v, rest)
       | .error e => .error e
     | .error e => .error e
   | _, t :: rest =>
     match parseAtom t with
-    | .ok v => .ok (v, rest)
+    | .ok v => .ok (v, false, rest)
     | .error e => .error e
 
-def evalArgs : Nat → List String → List Val → List (String × Val) → Except Err (List Val × List (String × Val) × List String)
-  | 0, _, _, _ => .error .unsupported
-  | _, [], _, _ => .error .unsupported
-  | _, ")" :: rest, acc, kw => .ok (acc.reverse, kw.reverse, rest)
-  | fuel + 1, t :: rest, acc, kw =>
+def evalArgs : Nat → List String → List Val → List (String × Val) → Bool →
+    Except Err (List Val × List (String × Val) × Bool × List String)
+  | 0, _, _, _, _ => .error .unsupported
+  | _, [], _, _, _ => .error .unsupported
+  | _, ")" :: rest, acc, kw, risky => .ok (acc.reverse, kw.reverse, risky, rest)
+  | fuel + 1, t :: rest, acc, kw, risky =>
     if t.startsWith "k:" then
       match evalExpr fuel rest with
-      | .ok (v, rest) => evalArgs fuel rest acc (((t.drop 2).toString, v) :: kw)
+      | .ok (v, r, rest) => evalArgs fuel rest acc (((t.drop 2).toString, v) :: kw) (risky || r)
       | .error e => .error e
     else
       match evalExpr fuel (t :: rest) with
-      | .ok (v, rest) => evalArgs fuel rest (v :: acc) kw
+      | .ok (v, r, rest) => evalArgs fuel rest (v :: acc) kw (risky || r)
       | .error e => .error e
 end
 
@@ -751,8 +833,8 @@ def observed (r g b a : String) : Option Color :=
 def handle : List String → String
   | "eval" :: toks =>
     match evalExpr (toks.length + 1) toks with
-    | .ok (v, []) => valStr v
-    | .ok (_, _) => "bad-op"
+    | .ok (v, risky, []) => valStr v ++ (if risky then " risky" else "")
+    | .ok (_, _, _) => "bad-op"
     | .error e => errStr e
   | ["inrange", r, g, b, a] =>
     match observed r g b a with
